@@ -561,6 +561,15 @@ CLAIMS['C38'] = dict(CLAIMS['C38'], category='other', technique=_MIXED_TECH,
                           'anything else raises InputError (nested loops, invariants). BOUNDED: '
                           + CLAIMS['C38']['text'],
                      note=_PROOF_NOTE + CLAIMS['C38']['note'])
+# C39: validate_workflow_name under contract (contracts/c39_names.py)
+CLAIMS['C39'] = dict(CLAIMS['C39'], category='other', technique=_MIXED_TECH,
+                     text='PROVED relative to the same os.path model: workflow_files.validate_workflow_name returns '
+                          'normally only for a name that is not absolute and whose normalised form does not start '
+                          'with "." (so not ".", "..", "../x"), and - with check_reserved_names - only after '
+                          'check_reserved_dir_names accepted the normalised name; every other name raises '
+                          'WorkflowFilesError. BOUNDED (what normpath does to concrete strings, the character '
+                          'rules, the reserved-name scan): ' + CLAIMS['C39']['text'],
+                     note=_PROOF_NOTE + CLAIMS['C39']['note'])
 # C44 (text above, with the bounded ones) has a proved part since contracts/c44_private.py
 CLAIMS['C44'] = dict(CLAIMS['C44'], category='other', technique=_MIXED_TECH,
                      note=_PROOF_NOTE + CLAIMS['C44']['note'])
